@@ -318,7 +318,7 @@ def strict_eligible(scn):
             return False
         if u['kind'] == 'redirect' and (not u.get('rto') or u.get('location') or u.get('code', 301) in (307, 308)):
             return False
-        if any(l.get('inline') or l.get('frame') for l in u['links']):
+        if any(l.get('inline') or l.get('frame') or l.get('css') for l in u['links']):
             return False
     for h, r in scn['robots'].items():
         if r['kind'] not in ('rules', 'missing', 'error500') or r.get('extra') or r.get('agent', '*') != '*':
